@@ -37,6 +37,7 @@ class CsvProjectIo(ProjectIoInterface):
             na_values=["None", "none"],
             sep=sep,
             dtype={"label": str},
+            float_precision="round_trip",
         )
         df.columns = [column.lower() for column in df.columns]
         df = df.rename(columns=OPTION_NAMES_DESERIALIZED)
